@@ -5,7 +5,7 @@ from .. import core
 
 def norm_collision(n):
     if n[0] == "err" and n[1] and n[1][0] == "collision":
-        return ("err", ["collision", n[1][1]])
+        return ("err", ["collision"])
     return n
 
 
@@ -38,8 +38,11 @@ class InvProp(Prop):
         elif di[0] == "err" and di[1][0] == "collision":
             # both report a collision for the same name: the pair must be the same two files
             ia = core.C.classify(impl["discover"]["err"])
-            if sorted(ia[2:4]) != sorted(model["discover"]["err"][2:4]) and not model.get("collision_multi"):
-                why.append("collision names different files")
+            col = (model.get("colliders") or {}).get(ia[1])
+            if col is None:
+                why.append("collision error names %r, which no two listed files derive (colliding names: %s)" % (ia[1], sorted((model.get("colliders") or {}).keys())))
+            elif ia[2] == ia[3] or not (ia[2] in col and ia[3] in col):
+                why.append("collision error names files %s, %s; files deriving that name: %s" % (ia[2], ia[3], col))
         if di[0] == "ok" and dm[0] == "ok" and not why:
             if "nodes" in self.parts:
                 ni, nm = impl.get("nodes", {}), model.get("nodes", {})
